@@ -68,6 +68,26 @@ fn sym_foreign(policy: usize, mode: usize, r: &mut Rng) -> Case8 {
     Case8 { c, orig }
 }
 
+/// a receiver that has a Sign / SignAndEncrypt policy and mode but has not derived keys yet (a client between its
+/// OPN request and the response): it can authenticate nothing, so every MSG / CLO chunk -- secured by the peer,
+/// unsecured, modified -- must be rejected
+fn sym_keyless(policy: usize, mode: usize, r: &mut Rng) -> Case8 {
+    let mut chunks = Vec::new();
+    for t in [b"MSG", b"CLO"] {
+        let body = rb(r, 30, 0);
+        let o = sym_original(policy, mode, t, &body, 1 + r.below(1000) as u32);
+        let mut m = o.clone(); let i = r.below(m.len() as u64) as usize; m[i] ^= 1 << r.below(8);
+        chunks.push(o); chunks.push(m);
+        let n = 4 + r.below(60) as usize;
+        let pb = r.bytes(n);
+        chunks.push(plain_chunk(t, b'F', 5, 9, 1 + r.below(1000) as u32, 77, &pb));
+    }
+    let orig = vec![false; chunks.len()];
+    let mut c = mk_case(policy, mode, chunks, &format!("sym-{}-{}-no-keys-yet", pol_name(policy), mode_name(mode)));
+    c.has_keys = false; c.reset_policy = true;
+    Case8 { c, orig }
+}
+
 /// unsecured chunks an outsider can put on the wire ahead of the sweep: an OPN chunk naming the policy None (the
 /// receive path hands it on untouched), one naming an unknown policy, a chunk too short to parse.  None of them
 /// may change what the channel does with the secured chunks that follow.
@@ -155,6 +175,7 @@ impl Property for P {
                     for kind in 0..3 { v.push(sym_sweep(policy, mode, kind, &mut r)); }
                 }
                 v.push(sym_foreign(policy, mode, &mut r));
+                v.push(sym_keyless(policy, mode, &mut r));
                 let k = ((policy + mode) % 3) as u64;
                 let c = sym_sweep(policy, mode, (policy + 2 * mode) % 3, &mut r); v.push(with_pre(c, k, &mut r));
                 if tier == "thorough" { let c = sym_foreign(policy, mode, &mut r); v.push(with_pre(c, 3 - k, &mut r)); }
@@ -169,6 +190,7 @@ impl Property for P {
         let policy = 1 + r.below(5) as usize;
         match r.below(8) {
             0 | 1 | 2 => { let c = sym_sweep(policy, 1 + r.below(2) as usize, r.below(3) as usize, r); if r.chance(1, 3) { let k = r.below(4); with_pre(c, k, r) } else { c } }
+            3 if r.chance(1, 3) => { let c = sym_keyless(policy, 1 + r.below(2) as usize, r); if r.chance(1, 2) { let k = r.below(4); with_pre(c, k, r) } else { c } }
             3 => { let c = sym_foreign(policy, 1 + r.below(2) as usize, r); if r.chance(1, 2) { let k = r.below(4); with_pre(c, k, r) } else { c } }
             _ => {
                 let (sid, rid) = if thorough && r.chance(1, 4) { if policy <= 2 { (2, 3) } else { (4, 5) } } else if r.chance(1, 2) { (0, 1) } else { (1, 0) };
